@@ -30,6 +30,18 @@ struct AllocTrack {
   // or unmap it) - 0..255 fills every tracked block with that byte at the moment it is freed, so that a later use of the freed object
   // (a table released too early, a reference count that went wrong) reads garbage instead of the old content; -1 leaves it alone
   volatile int poison_free = -1;
+  // which ADDRESS a new block gets is an environment answer too: with recycle = 1 (and tracking on) a freed block is kept and handed
+  // out again, most recent first, to the next request of exactly the same size - what a thread cache does.  A cache keyed on the
+  // address of an object that has been deleted then meets a new object at that very address.
+  volatile int recycle = 0;
+  struct Freed { void* p; size_t size; };
+  Freed pool[512]; int npool = 0;
+  void* take(size_t s, size_t align) {
+    if (!recycle || !on) return 0;
+    for (int i = npool - 1; i >= 0; --i) if (pool[i].size == s && ((uintptr_t)pool[i].p % (align ? align : 16)) == 0) { void* p = pool[i].p; pool[i] = pool[npool - 1]; npool--; return p; }
+    return 0;
+  }
+  bool keep(void* p, size_t s) { if (!recycle || !on || !s || npool >= 512 || nshift || residue >= 0) return false; pool[npool].p = p; pool[npool].size = s; npool++; return true; }
   // address of malloc / calloc / realloc blocks modulo 64 (malloc only promises 16): -1 leaves the allocator alone, 0/16/32/48 makes
   // every such block start at that residue, its END still being the end of the underlying allocation (so overruns stay visible)
   volatile int residue = -1;
@@ -75,6 +87,7 @@ inline AllocTrack& alloc_track() { static AllocTrack t; return t; }
 extern "C" {
 void* __wrap_malloc(size_t s) {
   vf::AllocTrack& t = vf::alloc_track();
+  if (void* q = t.take(s, 16)) { t.add(q, s); t.fresh(q, s); return q; }
   if (t.on && t.arena) { void* p = t.arena_alloc(16, s); if (p) t.add(p, s); t.fresh(p, s); return p; }
   void* p = (t.residue >= 0 && t.nshift < 4096) ? t.shifted_alloc(s) : __real_malloc(s);
   if (t.on && p) t.add(p, s);
@@ -83,13 +96,16 @@ void* __wrap_malloc(size_t s) {
 }
 void __wrap_free(void* p) {
   vf::AllocTrack& t = vf::alloc_track();
-  if (t.on) { size_t sz = t.del(p); if (sz && t.poison_free >= 0) memset(p, t.poison_free, sz); }
+  size_t fsz = 0;
+  if (t.on) { fsz = t.del(p); if (fsz && t.poison_free >= 0) memset(p, t.poison_free, fsz); }
+  if (fsz && t.keep(p, fsz)) return;
   if (t.in_arena(p)) return;
   if (t.nshift) { void* b = t.shifted_base(p); if (b) { __real_free(b); return; } }
   __real_free(p);
 }
 void* __wrap_aligned_alloc(size_t a, size_t s) {
   vf::AllocTrack& t = vf::alloc_track();
+  if (void* q = t.take(s, a)) { t.add(q, s); t.fresh(q, s); return q; }
   if (t.on && t.arena) { void* p = t.arena_alloc(a, s); if (p) t.add(p, s); t.fresh(p, s); return p; }
   void* p = __real_aligned_alloc(a, s);
   if (t.on && p) t.add(p, s);
@@ -98,6 +114,7 @@ void* __wrap_aligned_alloc(size_t a, size_t s) {
 }
 void* __wrap_calloc(size_t n, size_t s) {
   vf::AllocTrack& t = vf::alloc_track();
+  if (void* q = t.take(n * s, 16)) { memset(q, 0, n * s); t.add(q, n * s); return q; }
   if (t.on && t.arena) { void* p = t.arena_alloc(16, n * s); if (p) { memset(p, 0, n * s); t.add(p, n * s); } return p; }
   void* p;
   if (t.residue >= 0 && t.nshift < 4096) { p = t.shifted_alloc(n * s); if (p) memset(p, 0, n * s); }
@@ -130,6 +147,7 @@ void* __wrap_realloc(void* q, size_t s) {
 }
 int __wrap_posix_memalign(void** r, size_t a, size_t s) {
   vf::AllocTrack& t = vf::alloc_track();
+  if (void* q = t.take(s, a)) { *r = q; t.add(q, s); t.fresh(q, s); return 0; }
   if (t.on && t.arena) { void* p = t.arena_alloc(a, s); if (!p) return 12; *r = p; t.add(p, s); t.fresh(p, s); return 0; }
   int rc = __real_posix_memalign(r, a, s);
   if (t.on && rc == 0) t.add(*r, s);
